@@ -5,7 +5,7 @@ import itertools
 
 from ..battery import call, _Raised
 
-N_RANDOM = {"quick": 130, "thorough": 3100}
+N_RANDOM = {"quick": 200, "thorough": 5000}
 PAT3 = None
 PAT4 = None
 TIERS = {"quick": N_RANDOM["quick"], "thorough": N_RANDOM["thorough"] + 12 + 1990}
